@@ -36,6 +36,7 @@ func runC01(c *Ctx) {
 	checkThresholdBounds(c, "C01", setP)
 	checkVoteDiscipline(c, "C01", upd, true)
 	checkMaxHeights(c, "C01")
+	checkWalkBack(c, "C01")
 	// R4
 	{
 		ff := factsOf(verify)
@@ -100,12 +101,15 @@ func checkThresholdBounds(c *Ctx, prop string, setP *ssa.Function) {
 	}
 	// zero weights rejected: an edge X.bftWeight <= 0 (== 0) leading to an error return, inside the summing loop
 	okZ := false
-	for i, e := range ff.Edges {
-		f := ff.Facts[i]
-		if f.IsCmp && strings.HasSuffix(f.L.String(), ".bftWeight") && f.R.String() == "0" && (f.Op.String() == "<=" || f.Op.String() == "==") {
-			for _, in := range e.To.Instrs {
-				if r, isR := in.(*ssa.Return); isR && classifyReturn(ff, r) == RetErr {
-					okZ = true
+	for _, hf := range funcAndHelpers(setP) { // the check may sit in a validation helper
+		hff := factsOf(hf)
+		for i, e := range hff.Edges {
+			f := hff.Facts[i]
+			if f.IsCmp && strings.HasSuffix(f.L.String(), ".bftWeight") && f.R.String() == "0" && (f.Op.String() == "<=" || f.Op.String() == "==") {
+				for _, in := range e.To.Instrs {
+					if r, isR := in.(*ssa.Return); isR && classifyReturn(hff, r) == RetErr {
+						okZ = true
+					}
 				}
 			}
 		}
@@ -212,6 +216,25 @@ func checkVoteDiscipline(c *Ctx, prop string, upd *ssa.Function, full bool) {
 				}
 			}
 		}
+	}
+	if !okEarly {
+		// the same thing said from the other side: every weight that is touched is touched
+		// where maxHeightGenerated < height is known (the test may sit in a helper that
+		// decides whether the header votes at all)
+		ws := append(storesToField(upd, hdr, "prevoteWeight"), storesToField(upd, hdr, "precommitWeight")...)
+		all := len(ws) > 0
+		for _, st := range ws {
+			has := false
+			for _, f := range ff.FactsAt(st.Block()) {
+				if f.IsCmp && f.Op.String() == "<" && strings.HasSuffix(f.L.String(), "[0].maxHeightGenerated") && strings.HasSuffix(f.R.String(), "[0].height") {
+					has = true
+				}
+			}
+			if !has {
+				all = false
+			}
+		}
+		okEarly = all
 	}
 	if full {
 		c.Require(prop+".R2 no-vote-when-maxHeightGenerated>=height", FuncKey(upd), p.Pos(upd.Pos()), "a header with maxHeightGenerated >= height implies no votes (returns before any weight is touched)", okEarly, "")
@@ -333,6 +356,12 @@ func checkMaxHeights(c *Ctx, prop string) {
 					okFirst = true
 				}
 			}
+			// … or the value comes out of a search helper that returns it at the first match
+			if o, isInstr := v.Orig.(ssa.Instruction); isInstr && !okFirst && o.Block() != nil && isNewHelper(o.Parent()) {
+				if _, isR := o.Block().Instrs[len(o.Block().Instrs)-1].(*ssa.Return); isR {
+					okFirst = true
+				}
+			}
 			c.Require(prop+".R3 max-height-is-first-quorum", x.fn, p.InstrPos(st), x.field+" = height of the first window entry (newest first) whose "+x.weight+" >= "+x.thr+" of its own height", strings.HasSuffix(v.String(), ".height") && okQ && okFirst, fmt.Sprintf("value=%s quorum=%v first=%v", v, okQ, okFirst))
 		}
 		c.MinInstances(prop+".R3 "+x.field, len(sts), 1)
@@ -415,8 +444,18 @@ func runC02(c *Ctx) {
 						_ = isMap
 					}
 					if strings.HasPrefix(typeName(x.X.Type()), "map[") {
+						if x.Parent() != f && isNewHelper(x.Parent()) {
+							if orderInsensitiveCollector(p, x.Parent(), 0) {
+								continue // judged where it stands: a collector whose callers sort
+							}
+						}
 						reason, ok := mapRangeExceptions[FuncKey(f)]
 						good := ok && verifyMapRangeException(p, f)
+						if !good && orderInsensitiveCollector(p, f, 0) {
+							// not one of the reviewed functions, but of the same kind: it only collects
+							// into the slice it returns, and every caller hands that slice to a sort
+							good, reason = true, "collects into its result only; every caller passes the result to a function that sorts it before returning"
+						}
 						if !good {
 							bad++
 						}
@@ -494,6 +533,7 @@ func runC02(c *Ctx) {
 		checkVoteDiscipline(c, "C02", upd, false)
 	}
 	checkMaxHeights(c, "C02")
+	checkWalkBack(c, "C02")
 	checkWindowOrder(c, "C02")
 	if mod := c.Anchor("pkg/consensus/liskbft.(*Module).Init"); mod != nil {
 		ok := false
@@ -538,10 +578,11 @@ func runC02(c *Ctx) {
 	}
 	if g := c.Anchor("pkg/consensus/liskbft.getBFTParams"); g != nil {
 		ok := false
-		for _, call := range AllCalls(g) {
+		gf := factsOf(g)
+		for _, call := range AllCallsDeep(g) {
 			if call.Common().IsInvoke() && call.Common().Method.Name() == "Range" {
 				a := call.Common().Args
-				s, e, lim, rev := T(a[0]).String(), T(a[1]).String(), T(a[2]).String(), T(a[3]).String()
+				s, e, lim, rev := gf.Term(a[0]).String(), gf.Term(a[1]).String(), gf.Term(a[2]).String(), gf.Term(a[3]).String()
 				ok = strings.Contains(s, "FromUint32(0)") && strings.Contains(e, "FromUint32(p1)") && lim == "1" && rev == "true"
 			}
 		}
@@ -575,6 +616,102 @@ func sortFields(f []SchemaField) {
 }
 
 // verifyMapRangeException re-checks the stated consumer of a tabled map iteration.
+// sortsBeforeReturn: a sort call on every path to every return of f.
+func sortsBeforeReturn(f *ssa.Function) bool {
+	var sorts []ssa.CallInstruction
+	for _, call := range AllCallsDeep(f) {
+		n := CalleeName(call.Common())
+		if isSortCall(n) || n == "sort.Strings" || n == "sort.Ints" || n == "sort.Sort" || n == "sort.Stable" || strings.HasPrefix(n, "slices.Sort") {
+			sorts = append(sorts, call)
+		}
+	}
+	if len(sorts) == 0 {
+		return false
+	}
+	for _, r := range Returns(f) {
+		if r.Block() == f.Recover {
+			continue
+		}
+		dom := false
+		for _, sc := range sorts {
+			if instrDominates(sc, r) {
+				dom = true
+			}
+		}
+		if !dom {
+			return false
+		}
+	}
+	return true
+}
+
+// orderInsensitiveCollector: f writes nothing but its own result while it iterates (no field,
+// element or map store, no call other than built-ins, byte/string helpers and the function
+// values it was given), and at every production call site its result goes straight into a
+// function that sorts before returning (or f is such a function itself).
+func orderInsensitiveCollector(p *Program, f *ssa.Function, depth int) bool {
+	if sortsBeforeReturn(f) {
+		return true
+	}
+	if depth > 1 {
+		return false
+	}
+	for _, b := range f.Blocks {
+		for _, in := range b.Instrs {
+			switch x := in.(type) {
+			case *ssa.MapUpdate:
+				return false
+			case *ssa.Store:
+				switch a := x.Addr.(type) {
+				case *ssa.FieldAddr:
+					if _, local := a.X.(*ssa.Alloc); !local {
+						return false
+					}
+				case *ssa.IndexAddr:
+					if al, isAl := a.X.(*ssa.Alloc); !isAl || al.Heap {
+						// element store into something that is not a fresh local array (append's temporary)
+						if _, isSlice := a.X.Type().Underlying().(*types.Slice); isSlice {
+							return false
+						}
+					}
+				}
+			case ssa.CallInstruction:
+				n := CalleeName(x.Common())
+				_, viaParam := x.Common().Value.(*ssa.Parameter)
+				if !(strings.HasPrefix(n, "builtin:") || strings.HasPrefix(n, "bytes.") || strings.HasPrefix(n, "strings.") || strings.HasPrefix(n, "collection/bytes.") || viaParam) {
+					return false
+				}
+			case *ssa.Go, *ssa.Defer, *ssa.Send:
+				return false
+			}
+		}
+	}
+	sites := p.callSitesOf(f)
+	n := 0
+	for _, s := range sites {
+		if !IsProd(s.Fn) {
+			continue
+		}
+		n++
+		v := s.Call.Value()
+		if v == nil {
+			return false
+		}
+		ok := false
+		for _, r := range *v.Referrers() {
+			if cl, isC := r.(ssa.CallInstruction); isC {
+				if g := cl.Common().StaticCallee(); g != nil && IsOwn(g) && sortsBeforeReturn(g) {
+					ok = true
+				}
+			}
+		}
+		if !ok {
+			return false
+		}
+	}
+	return n > 0
+}
+
 func verifyMapRangeException(p *Program, f *ssa.Function) bool {
 	switch FuncKey(f) {
 	case "pkg/db/diffdb.(*cacheDB).withPrefix", "pkg/db/diffdb.(*cacheDB).dataBetween":
@@ -620,4 +757,57 @@ func verifyMapRangeException(p *Program, f *ssa.Function) bool {
 
 var c02UnsignedTable = []unsignedRow{
 	{fn: "pkg/consensus/liskbft.(*API).ImpliesMaximalPrevotes", frag: "MaxHeightGenerated(p2)) − 1)", reason: "currentHeight equals the header's height (anything else returned an error) and maxHeightGenerated >= height returned false, so currentHeight − maxHeightGenerated >= 1"},
+}
+
+// checkWalkBack (R5): getHeightNotPrevoted follows a generator's own maxHeightGenerated
+// pointers back through the window. Two structural conditions of "a vote is implied only for
+// heights the generator has not voted on another branch":
+//   - the walk goes on (the loop's back edge is taken) only where the block it stands on was
+//     generated by the same validator and its pointer descends;
+//   - where the block it stands on belongs to another validator, the walk ends with the height
+//     reached so far (the loop variable), not with the bottom of the window.
+func checkWalkBack(c *Ctx, prop string) {
+	p := c.P
+	fn := c.Anchor("pkg/consensus/liskbft.(*BFTVotes).getHeightNotPrevoted")
+	if fn == nil {
+		return
+	}
+	ff := factsOf(fn)
+	sameGen := func(f Fact, truth bool) bool {
+		return !f.IsCmp && f.Truth == truth && f.B.Op == "call" && strings.HasSuffix(f.B.Sym, "bytes.Equal") && len(f.B.Args) == 2 &&
+			strings.HasSuffix(f.B.Args[0].String(), ".generatorAddress") && strings.HasSuffix(f.B.Args[1].String(), ".generatorAddress") &&
+			(strings.HasSuffix(f.B.Args[0].String(), "blockBFTInfos[0].generatorAddress") != strings.HasSuffix(f.B.Args[1].String(), "blockBFTInfos[0].generatorAddress"))
+	}
+	loops := naturalLoops(fn)
+	n := 0
+	for _, li := range loops {
+		for _, l := range li.Latch {
+			n++
+			okGen := ff.EveryPathHas(l, func(f Fact) bool { return sameGen(f, true) })
+			okDesc := ff.EveryPathHas(l, func(f Fact) bool {
+				return f.IsCmp && ((f.Op.String() == "<" && strings.HasSuffix(f.L.String(), ".maxHeightGenerated")) || (f.Op.String() == ">" && strings.HasSuffix(f.R.String(), ".maxHeightGenerated")))
+			})
+			c.Require(prop+".R5 walk-back-own-blocks-only", FuncKey(fn)+": continue", p.InstrPos(l.Instrs[len(l.Instrs)-1]), "the walk continues only from a block of the same generator whose maxHeightGenerated descends", okGen && okDesc, fmt.Sprintf("same-generator=%v descends=%v", okGen, okDesc))
+		}
+		// foreign block ⇒ the result is the height reached so far
+		for i, e := range ff.Edges {
+			if !sameGen(ff.Facts[i], false) || !li.Blocks[e.From] {
+				continue
+			}
+			n++
+			first := e.To.Instrs[0]
+			bad := reachesReturnAvoiding(first, func(in ssa.Instruction) bool { return in.Block() == li.Header && in == li.Header.Instrs[0] }, func(r *ssa.Return) bool {
+				phi, isPhi := stripConv(r.Results[0]).(*ssa.Phi)
+				return !(isPhi && phi.Block() == li.Header)
+			})
+			if r, isR := first.(*ssa.Return); isR {
+				phi, isPhi := stripConv(r.Results[0]).(*ssa.Phi)
+				if isPhi && phi.Block() == li.Header {
+					bad = nil
+				}
+			}
+			c.Require(prop+".R5 walk-back-stops-at-foreign-block", FuncKey(fn)+": foreign generator", p.InstrPos(e.If), "meeting another validator's block ends the walk with the height reached so far", bad == nil, pathStr(bad))
+		}
+	}
+	c.MinInstances(prop+".R5 walk-back", n, 2)
 }
